@@ -16,6 +16,7 @@ mod c03;
 mod c04;
 mod c05;
 mod c06;
+mod c07;
 mod c08;
 mod c09;
 mod c10;
@@ -52,6 +53,7 @@ fn build(id: &str, ctx: &Ctx) -> Option<Property> {
         "C04" => c04::build(ctx),
         "C05" => c05::build(ctx),
         "C06" => c06::build(ctx),
+        "C07" => c07::build(ctx),
         "C08" => c08::build(ctx),
         "C09" => c09::build(ctx),
         "C10" => c10::build(ctx),
